@@ -143,12 +143,61 @@ def handleCall (req : Json) : Except String Json := do
     ("attrs", Json.arr (o.attrs.map fun a => Json.arr #[a.1, valJson a.2]).toArray),
     ("opset", Json.arr #[(opsetReq n).1, (opsetReq n).2])]
 
+/-- `{"kind":"spell","ctor":…,"spelled":{attr: {"s":"omitted"|"none"|"bad"|"ok","v":<val>}}}` :
+    `Conform.callAttrsE` — does the `Attributes(...)` expression raise, and if not, what is emitted. -/
+def handleSpell (req : Json) : Except String Json := do
+  let c ← parseCtor (← req.getObjVal? "ctor")
+  let spJ ← req.getObjVal? "spelled"
+  let spelled : String → Spell := fun n =>
+    match spJ.getObjVal? n with
+    | .ok j => match j.getObjValAs? String "s" with
+      | .ok "none" => Spell.none
+      | .ok "bad" => Spell.bad
+      | .ok "ok" => match j.getObjVal? "v" with
+        | .ok v => match parseVal v with
+          | .ok x => Spell.ok x
+          | .error _ => Spell.bad
+        | .error _ => Spell.bad
+      | _ => Spell.omitted
+    | .error _ => Spell.omitted
+  match callAttrsE c spelled with
+  | none => return Json.mkObj [("raises", true)]
+  | some l => return Json.mkObj [("raises", false),
+      ("attrs", Json.arr ((emitAttrs l).map fun a => Json.arr #[a.1, valJson a.2]).toArray)]
+
+/-- `{"kind":"inspell","ctor":…,"spelled":{input: {"s":"omitted"|"none"|"bad"|"var"|"vars","v":…}},"mins":[i,o]}` :
+    `Conform.callInputsE` followed by `Emit.emitSlots`. -/
+def handleInSpell (req : Json) : Except String Json := do
+  let c ← parseCtor (← req.getObjVal? "ctor")
+  let spJ ← req.getObjVal? "spelled"
+  let spelled : String → InSpell String := fun n =>
+    match spJ.getObjVal? n with
+    | .ok j => match j.getObjValAs? String "s" with
+      | .ok "none" => InSpell.none
+      | .ok "bad" => InSpell.bad
+      | .ok "var" => match j.getObjValAs? String "v" with
+        | .ok v => InSpell.var v
+        | .error _ => InSpell.bad
+      | .ok "vars" => match j.getObjValAs? (List String) "v" with
+        | .ok v => InSpell.vars v
+        | .error _ => InSpell.bad
+      | _ => InSpell.omitted
+    | .error _ => InSpell.omitted
+  let minI := match parseMins req with
+    | some (i, _) => i
+    | none => 0
+  match callInputsE c spelled with
+  | none => return Json.mkObj [("raises", true)]
+  | some l => return Json.mkObj [("raises", false), ("inputs", slotsJson (emitSlots minI l))]
+
 def handle (req : Json) : Json :=
   match (do
     let kind ← req.getObjValAs? String "kind"
     match kind with
     | "emit" => handleEmit req
     | "call" => handleCall req
+    | "spell" => handleSpell req
+    | "inspell" => handleInSpell req
     | _ => throw "unknown kind") with
   | .ok j => j
   | .error e => Json.mkObj [("error", e)]
